@@ -129,12 +129,46 @@ class FakeS3:
         self.objects = {}
         self.captured = []
         self.pages = []       # continuation tokens to hand out on successive listing calls
+        self.midbody_faults = 0   # this many streamed PUTs lose their connection after the first piece of the body
         self.put_faults = 0   # this many PUT attempts are answered 503 after the body was read (the adapter retries)
         self.canon = []       # per prepared request: (canonical request, string to sign) as the module hashed/signed them
         self.prepared = {}    # id(request object _prepare_request returned) -> {'canon', 'stamp_index', 'request'}
         self.redirects = []   # answers 3xx + Location for the next requests the adapter prepares: [(status, kind)]
         self.last_stamp_index = 0
         self.current_token = None   # the continuation token the adapter has to use in its next listing request
+
+    async def handle(self, request):
+        """the transport: consumes a streamed request body piece by piece (httpx.MockTransport would read it whole before the
+        handler runs); the connection may break after the first piece of a streamed PUT body (the adapter retries)"""
+        if request.method == 'PUT' and self.midbody_faults > 0 and not isinstance(request.stream, httpx.ByteStream):
+            self.midbody_faults -= 1
+            got = b''
+            async for piece in request.stream:
+                got += piece
+                if got:
+                    break
+            rec = self.make_rec(request, got)
+            rec['aborted'] = True
+            self.captured.append(rec)
+            raise httpx.WriteError('connection reset by peer while sending the request body', request=request)
+        await request.aread()
+        response = await self.handler(request)
+        response.request = request
+        return response
+
+    def make_rec(self, request, body):
+        rec = {'method': request.method.encode(), 'target': bytes(request.url.raw_path),
+               'headers': [(bytes(k), bytes(v)) for k, v in request.headers.raw], 'body': bytes(body),
+               'netloc': bytes(request.url.netloc).decode('latin-1'), 'scheme': request.url.scheme}
+        info = self.prepared.get(id(request))
+        if info is not None and info['request'] is request:
+            rec['canon'] = info['canon']
+            rec['stamp_index'] = self.last_stamp_index = info['stamp_index']
+        else:
+            rec['canon'] = None
+            rec['stamp_index'] = self.last_stamp_index
+            rec['unprepared'] = True
+        return rec
 
     async def handler(self, request):
         """EVERY request that reaches the wire, for whatever host, is recorded here (and verified afterwards)"""
@@ -228,7 +262,10 @@ def instrumented(fake, clock):
         fake.prepared[id(req)] = {'canon': fake.canon[-1], 'stamp_index': n_before, 'request': req}
         return req
 
-    s3c.httpx = HttpxProxy(httpx.MockTransport(fake.handler))
+    class Transport(httpx.AsyncBaseTransport):
+        async def handle_async_request(self, request):
+            return await fake.handle(request)
+    s3c.httpx = HttpxProxy(Transport())
     for name, old in saved_clock_names.items():     # whichever clock module the adapter imported: it sees the scenario's instant
         if old is not _missing:
             setattr(s3c, name, clock)
@@ -266,6 +303,12 @@ def wrap_stream(data, kind):
     raw = io.BytesIO(data)
     if kind == 'bare':
         return raw
+    if kind == 'slow':
+        class SlowSource(io.BytesIO):          # a source whose reads take a few milliseconds of real time (disk, pipe)
+            def read(self, size=-1):
+                _time.sleep(0.004)
+                return super().read(size)
+        return SlowSource(data)
     inner = U.RateLimitedIO(max(len(data) // 3, 1)).wrap(raw) if kind == 'limited' else raw
     return U.TQDMIOReader(inner, desc='x', total=len(data), position=0, disable=True)
 
@@ -273,14 +316,24 @@ def wrap_stream(data, kind):
 async def run_ops(sc, fake, clock):
     cfg = sc['cfg']
     fake.put_faults = sc.get('put_faults', 0)
+    fake.midbody_faults = sc.get('midbody_faults', 0)
     fake.redirects = [tuple(r) for r in sc.get('redirects', [])]
     with instrumented(fake, clock) as s3c:
         if cfg.get('aws'):
             from replicat.backends import s3 as s3mod
-            be = s3mod.S3(cfg['bucket'], key_id=cfg['key_id'], access_key=cfg['access_key'], region=cfg['region'])
+            cls, kw = s3mod.S3, dict(key_id=cfg['key_id'], access_key=cfg['access_key'], region=cfg['region'])
         else:
-            be = s3c.S3Compatible(cfg['bucket'], key_id=cfg['key_id'], access_key=cfg['access_key'], region=cfg['region'],
-                                  host=cfg['host'], scheme=cfg['scheme'])
+            cls, kw = s3c.S3Compatible, dict(key_id=cfg['key_id'], access_key=cfg['access_key'], region=cfg['region'],
+                                             host=cfg['host'], scheme=cfg['scheme'])
+        if sc.get('optional_args'):
+            # every optional constructor argument the adapter has (found by introspection) is given a value: whatever it makes
+            # the adapter put on the wire is judged like the rest
+            import inspect
+            for name, prm in inspect.signature(cls.__init__).parameters.items():
+                if name not in kw and name not in ('self', 'connection_string') and prm.default is not inspect.Parameter.empty \
+                        and prm.kind in (prm.KEYWORD_ONLY, prm.POSITIONAL_OR_KEYWORD) and (prm.default is None or isinstance(prm.default, str)):
+                    kw[name] = 'verif-' + name.replace('_', '-')
+        be = cls(cfg['bucket'], **kw)
         if 'command' in sc:
             try:
                 await run_command(sc, be, fake)
@@ -391,6 +444,9 @@ def check_scenario(sc, rep, model_queue=None):
         op = rec.get('op', ['?'])
         stamp = stamp_text(tuple(sc['stamps'][min(rec['stamp_index'], len(sc['stamps']) - 1)]))
         rep.count('op:' + op[0])
+        if rec.get('aborted'):
+            rep.count('transmissions broken off after the first piece of the body')
+            continue
         if rec.get('unprepared'):
             rep.count('requests the HTTP client produced by itself')
         if rec.get('answered') in (301, 302, 307, 308):
@@ -556,6 +612,14 @@ def gen_scenario(rng, nops=6):
     sc = {'cfg': gen_cfg(rng), 'ops': ops, 'stamps': gen_stamps(rng, 8 * len(ops) + 16)}
     if rng.random() < 0.3:
         sc['put_faults'] = rng.choice([1, 2, 3])      # transient 503s on PUT: every retry must again declare what it sends
+    if rng.random() < 0.12:
+        # the connection breaks while a streamed body is being sent from a slow source; every retry must carry a body that
+        # matches the hash and length it declares
+        sc['midbody_faults'] = rng.choice([1, 1, 2])
+        ops.insert(rng.randint(0, len(ops)), ['upload_stream', gen_name(rng), rng.randbytes(rng.randint(400, 1500)).hex(),
+                                               rng.choice([64, 100, 256]), 'slow'])
+    if rng.random() < 0.3:
+        sc['optional_args'] = True       # the adapter is constructed with all its optional arguments set
     if rng.random() < 0.4:
         # the process runs in a time zone whose calendar date differs from the UTC date for part of every day (far west: the
         # previous day until 08:00-12:00 UTC; far east: the next day from 10:00-15:00 UTC on): SigV4 dates are UTC dates
